@@ -281,6 +281,44 @@ func runC20(c *runCtx) {
 	fail := func(obj int, sig, f string, a ...any) {
 		c.violate(sig, fmt.Sprintf("object %d: ", obj)+fmt.Sprintf(f, a...), map[string]any{"object": obj})
 	}
+	// ids that begin or end with slashes (the path routes carry the id after one separating slash): written through
+	// gRPC, each is read, completed and deleted over the HTTP path under exactly its own spelling, or not found there,
+	// never as one of its neighbours
+	{
+		base := fmt.Sprintf("sl%d.%d", c.seed, c.shard)
+		ids := []string{base, "/" + base, "//" + base, base + "/", "/" + base + "/x"}
+		for _, id := range ids {
+			_, _ = srv.Promises().CreatePromise(ctx, &pb.CreatePromiseRequest{Id: id, Timeout: time.Now().UnixMilli() + 3600_000, Param: &pb.Value{Data: []byte("param of " + id)}})
+			_, _ = srv.Schedules().CreateSchedule(ctx, &pb.CreateScheduleRequest{Id: id, Description: "schedule " + id, Cron: "0 0 1 1 *", PromiseId: "x.{{.timestamp}}", PromiseTimeout: 1000})
+		}
+		for _, id := range ids {
+			for _, kind := range []string{"promises", "schedules"} {
+				rp := srv.Do("GET", "/"+kind+"/"+id, nil, nil)
+				var got struct {
+					Id string `json:"id"`
+				}
+				c.rep.Events++
+				c.rep.Hit("slash-id-path-read")
+				if rp.Err == nil && rp.Status == 200 && json.Unmarshal(rp.Body, &got) == nil && got.Id != id {
+					fail(-1, "roundtrip:path-id:"+kind, "GET /%s/%s returned the object with id %q", kind, id, got.Id)
+				}
+			}
+		}
+		// deleting the schedule with the most slashes leaves the others alone
+		if rp := srv.Do("DELETE", "/schedules///"+base, nil, nil); rp.Err == nil {
+			for _, id := range []string{base, "/" + base} {
+				if _, err := srv.Schedules().ReadSchedule(ctx, &pb.ReadScheduleRequest{Id: id}); err != nil {
+					fail(-1, "roundtrip:path-id:delete", "DELETE /schedules///%s (answered %d) removed the schedule %q", base, rp.Status, id)
+				}
+			}
+		}
+		// completing "/<base>" over the path leaves "<base>" pending
+		if rp := srv.JSON("PATCH", "/promises//"+base, nil, map[string]any{"state": "RESOLVED"}); rp.Err == nil && rp.Status == 201 {
+			if res, err := srv.Promises().ReadPromise(ctx, &pb.ReadPromiseRequest{Id: base}); err == nil && res.Promise.State != pb.State_PENDING {
+				fail(-1, "roundtrip:path-id:complete", "PATCH /promises//%s completed the promise %q", base, base)
+			}
+		}
+	}
 	for i := 0; i < n; i++ {
 		if i%c.nshards != c.shard {
 			continue
